@@ -576,8 +576,10 @@ class MultifileIngest(AbstractTraceIngest):
         tsidx = (event, idx)   # keep idx with event so we immediately know which iterator/file to use to refill
         self.event_front.append(tsidx)
         # sorting reverse so that list.pop() can be used to emit the event with lowest TS
-        self.event_front.sort(reverse=True, key=lambda x: x[0]["ts"] if "ts" in x[0] else 0.0)
-        aiulog.log(aiulog.TRACE, "INGEST:", [e[0]["ts"] if "ts" in e[0] else 0.0 for e in self.event_front])
+        # an event without ts (metadata) has no place in time: it is emitted as soon as it is at the front of its file,
+        # so that it cannot hold back events of its file behind later events of other files (negative ts)
+        self.event_front.sort(reverse=True, key=lambda x: x[0]["ts"] if "ts" in x[0] else -math.inf)
+        aiulog.log(aiulog.TRACE, "INGEST:", [e[0]["ts"] if "ts" in e[0] else -math.inf for e in self.event_front])
 
     # return False if no more active ingests available
     def disable_ingest(self, index) -> bool:
